@@ -276,6 +276,19 @@ class Eval:
             return ("multi", out)
         if name == "from_residual":
             return Adt("Option", "None", [])
+        if name == "len" and (fn.get("trait") or "").endswith("ExactSizeIterator") and "self" in P.mem and isinstance(P.mem["self"][0], Slice) \
+                and P.mem["self"][0].lo == ZERO and P.mem["self"][0].hi == L and getattr(s.top, "W", None) is not None and getattr(s.top, "method", "") in ("next", "next_back", "nth", "nth_back"):
+            # the number of remaining items of the untouched cursor: 0, or m >= 1 with L = (m-1)*(W+K) + W (cursor invariant;
+            # size_hint's own conformance is checked separately)
+            out = []
+            for Q, truth in s.fork_on(P, Cond("==", L)):
+                if truth:
+                    out.append((Q, ZERO))
+                else:
+                    Q.conds.append(Cond(">=", Poly.atom("m") - ONE))
+                    Q.actions.append(("SUBST_L",))
+                    out.append((Q, Poly.atom("m")))
+            return ("multi", out)
         if fn.get("trait") in ("core::iter::Iterator", "core::iter::DoubleEndedIterator", "core::iter::ExactSizeIterator") or \
            (fn.get("trait") or "").endswith("Iterator"):
             # call on self: record as action with the current cursor state
@@ -454,10 +467,81 @@ def ideal(method, W, K, conds):
         else:
             sl = Slice(d, L) if method == "nth" else Slice(ZERO, L - d)
         nm = "next" if method == "nth" else "next_back"
-        return (None, Unknown("ret:" + nm), (nm, sl))
+        # the skipped cursor, then one ideal step: whether the code reaches that by calling next()/next_back() or by doing
+        # the step itself is its own business (the callee's conformance is checked separately: assume-guarantee)
+        rest, item = step_on(sl, W, K, nm == "next_back", dec)
+        return (rest, item, None)
     if method == "last": return (Slice(ZERO, L), Unknown("ret:next_back"), ("next_back", Slice(ZERO, L)))
     if method == "count": return (Slice(ZERO, L), Unknown("ret:len"), ("len", Slice(ZERO, L)))
     raise Inconclusive("no schema for " + method)
+
+
+def step_on(sl, W, K, back, dec):
+    """(remaining slice, returned item) of one ideal next / next_back on the cursor slice sl"""
+    NONE = Adt("Option", "None", [])
+    ln = sl.len()
+    if ln == ZERO or dec(Cond("<=", ln)):
+        return (EMPTY, NONE)
+    if back:
+        item = Slice(sl.hi - W, sl.hi) if W != ONE else Elem(sl.hi - ONE)
+        rest = EMPTY if dec(Cond("<=", ln - W)) else Slice(sl.lo, sl.hi - W - K)
+    else:
+        item = Slice(sl.lo, sl.lo + W) if W != ONE else Elem(sl.lo)
+        rest = EMPTY if dec(Cond("<=", ln - W)) else Slice(sl.lo + W + K, sl.hi)
+    return (rest, Adt("Option", "Some", [item]))
+
+
+def sign_contradictory(conds):
+    """all symbols are unsigned: a fact `p < 0` (or p <= 0 with a positive constant, ...) whose every coefficient is
+    non-negative once the atoms known to be zero are dropped cannot hold"""
+    zero = set()
+    for c in conds:
+        if c.poly is not None and c.op == "==" and len(c.poly.t) == 1:
+            (mono, k), = c.poly.t.items()
+            if len(mono) == 1 and k != 0: zero.add(mono[0])
+    for c in conds:
+        if c.poly is None: continue
+        t = {m: k for m, k in c.poly.t.items() if not any(a in zero for a in m) and k != 0}
+        cst = t.get((), 0)
+        pos = all(k >= 0 for k in t.values()); neg = all(k <= 0 for k in t.values())
+        if c.op == "<" and pos: return True
+        if c.op == "<=" and pos and cst > 0: return True
+        if c.op == "==" and ((pos and cst > 0) or (neg and cst < 0)): return True
+        if c.op == ">" and neg: return True
+        if c.op == ">=" and neg and cst < 0: return True
+        if c.op == "!=" and not t: return True
+    return False
+
+
+def invariant_infeasible(conds, W, K):
+    """the path contradicts the cursor invariant L = 0 or L = (m-1)*(W+K) + W, m >= 1: a non-empty slice shorter than one
+    item, or longer than one item but shorter than item + gap + item"""
+    if _dec(conds, Cond("!=", L)) is True and _dec(conds, Cond("<", L - W)) is True:
+        return True
+    if _dec(conds, Cond(">", L - W)) is True and _dec(conds, Cond("<", L - W - W - K)) is True:
+        return True
+    if _dec(conds, Cond("!=", L)) is True and _dec(conds, Cond("==", W)) is True:
+        return True          # zero-width rows only occur with an empty slice
+    return False
+
+
+def subst_poly(p, atom, repl):
+    out = ZERO
+    for mono, c in p.t.items():
+        term = Poly.const(c)
+        for a in mono:
+            term = term * (repl if a == atom else Poly.atom(a))
+        out = out + term
+    return out
+
+
+def subst_val(v, atom, repl):
+    if isinstance(v, Poly): return subst_poly(v, atom, repl)
+    if isinstance(v, Slice): return Slice(subst_poly(v.lo, atom, repl), subst_poly(v.hi, atom, repl))
+    if isinstance(v, Elem): return Elem(subst_poly(v.off, atom, repl))
+    if isinstance(v, Adt): return Adt(v.name, v.variant, [subst_val(x, atom, repl) for x in v.f])
+    if isinstance(v, Tup): return Tup([subst_val(x, atom, repl) for x in v.f])
+    return v
 
 
 def _eq(conds, x, y):
@@ -491,6 +575,119 @@ def same_value(conds, a, b):
 
 BASE_FACTS = [Cond(">=", L), Cond(">=", C), Cond(">=", K), Cond(">=", N)]
 
+# ---------- refutation needs a witness: a small concrete cursor state on which the path's summary and the ideal differ ----------
+U64 = 1 << 64
+
+
+def _pval(p, env):
+    tot = 0
+    for mono, c in p.t.items():
+        v = c
+        for a in mono:
+            if a not in env: raise KeyError(a)
+            v *= env[a]
+        tot += v
+    return tot
+
+
+def _cond_holds(c, env):
+    """True / False / None (an opaque atom the assignment does not determine)"""
+    if c.poly is None:
+        mo = re.match(r"^ovf\((.*)\)$", c.atom or "")
+        if mo:
+            # the product the flag belongs to is the only polynomial with that text among the facts; recompute from n, W, K
+            val = env.get("__ovf__", {}).get(c.atom)
+            if val is None: return None
+            return val if c.op == "atom" else (not val)
+        return None
+    v = _pval(c.poly, env)
+    return {"==": v == 0, "!=": v != 0, "<": v < 0, "<=": v <= 0, ">": v > 0, ">=": v >= 0}[c.op]
+
+
+def _cval(v, env):
+    """concrete image of a symbolic result"""
+    if isinstance(v, Slice):
+        lo, hi = _pval(v.lo, env), _pval(v.hi, env)
+        return ("slice", lo, hi) if hi > lo else ("slice", 0, 0)
+    if isinstance(v, Elem): return ("elem", _pval(v.off, env))
+    if isinstance(v, Poly): return ("int", _pval(v, env))
+    if isinstance(v, Adt): return (v.variant,) + tuple(_cval(x, env) for x in v.f)
+    if isinstance(v, Tup): return ("tup",) + tuple(_cval(x, env) for x in v.f)
+    return ("?", repr(v))
+
+
+def _ideal_step(lo, hi, W, K, back):
+    if hi <= lo: return ("None",), (0, 0)
+    if back:
+        item = ("slice", hi - W, hi) if W != 1 or True else None
+        rest = (lo, hi - W - K) if hi - lo > W else (0, 0)
+    else:
+        item = ("slice", lo, lo + W)
+        rest = (lo + W + K, hi) if hi - lo > W else (0, 0)
+    return ("Some", item), (rest if rest[1] > rest[0] else (0, 0))
+
+
+def find_witness(m, rows, conds, actions, ret, final):
+    """a reachable cursor state (m items, width W, gap K, argument n) that satisfies the path's facts and on which the path's
+    (result, remaining cursor) differs from the ideal's; None when no such state exists among the small shapes tried"""
+    ovf_atoms = {}
+    for c in conds:
+        if c.poly is None and (c.atom or "").startswith("ovf("):
+            ovf_atoms[c.atom] = None
+    calls = [a for a in actions if a[0] == "CALL"]
+    if any(a[0] == "PANIC" for a in actions):
+        panic = True
+    else:
+        panic = False
+    for Cv in ((0, 1, 2, 3) if rows else (1,)):
+        for Kv in (0, 1, 2):
+            Wv = Cv if rows else 1
+            for mv in (0, 1, 2, 3, 4):
+                if rows and Cv == 0 and mv != 0: continue
+                Lv = 0 if mv == 0 else (mv - 1) * (Wv + Kv) + Wv
+                if rows and Cv == 0: Lv = 0
+                for nv in ((0, 1, 2, 3, 4, 5, 1 << 62, 1 << 63, U64 - 1) if m in ("nth", "nth_back") else (0,)):
+                    env = {"L": Lv, "C": Cv, "K": Kv, "n": nv, "m": mv}
+                    d = nv * (Wv + Kv)
+                    env["__ovf__"] = {a: (d >= U64) for a in ovf_atoms}
+                    try:
+                        hold = [_cond_holds(c, env) for c in conds]
+                    except KeyError:
+                        return "unknown-atom"
+                    if any(h is False for h in hold):
+                        continue
+                    if any(h is None for h in hold):
+                        continue          # an opaque fact: this assignment is not a reliable witness
+                    # ideal
+                    if m in ("next", "next_back"):
+                        iret, irest = _ideal_step(0, Lv, Wv, Kv, m == "next_back")
+                    elif m in ("nth", "nth_back"):
+                        if d >= U64 or d >= Lv: lo_, hi_ = 0, 0
+                        elif m == "nth": lo_, hi_ = d, Lv
+                        else: lo_, hi_ = 0, Lv - d
+                        iret, irest = _ideal_step(lo_, hi_, Wv, Kv, m == "nth_back")
+                    else:
+                        return None
+                    # the path's own outcome
+                    try:
+                        if calls and calls[-1][1] in ("next", "next_back") and isinstance(ret, Unknown) and isinstance(calls[-1][3], Slice):
+                            st = _cval(calls[-1][3], env)
+                            gret, grest = _ideal_step(st[1], st[2], Wv, Kv, calls[-1][1] == "next_back")
+                        else:
+                            gret = _cval(ret, env)
+                            f_ = _cval(final, env) if isinstance(final, Slice) else ("slice", 0, 0)
+                            grest = (f_[1], f_[2])
+                    except KeyError:
+                        return "unknown-atom"
+                    def norm_item(x):
+                        # a row item is a slice; a column item an element at its start
+                        if x and x[0] == "Some" and len(x) > 1 and x[1][0] == "elem": return ("Some", ("slice", x[1][1], x[1][1] + 1))
+                        return x
+                    if panic or norm_item(gret) != norm_item(iret) or tuple(grest) != tuple(irest):
+                        return "m=%d items, width %d, gap %d (slice length %d)%s: the code %s and leaves %s, the ideal cursor returns %s and leaves %s" % (
+                            mv, Wv, Kv, Lv, (", n=%d" % nv) if m in ("nth", "nth_back") else "", "panics" if panic else "returns %s" % (gret,), grest, iret, irest)
+    return None
+
 
 def judge(m, W, Kval, conds, actions, ret, final, depth=0):
     """verdicts for one evaluated path: the schema's own case split is applied on top of the path's facts (the path is
@@ -509,9 +706,39 @@ def judge(m, W, Kval, conds, actions, ret, final, depth=0):
                 continue
             out += judge(m, W, Kval, conds + [c], actions, ret, final, depth + 1)
         return out
+    if invariant_infeasible(conds, W, Kval) or sign_contradictory(conds):
+        return [(True, conds, show_got(), "path contradicts the cursor invariant / the signs of its own facts (unreachable)")]
     calls = [a for a in actions if a[0] == "CALL"]
     panics = [a for a in actions if a[0] == "PANIC"]
     ok = not panics
+    if m in ("nth", "nth_back") and calls and calls[-1][1] in ("next", "next_back") and isinstance(ret, Unknown) and ret.tag == "ret:" + calls[-1][1] and isinstance(calls[-1][3], Slice):
+        # the code finishes with `self.next()` / `self.next_back()` on the cursor it has prepared: replace the call by the
+        # callee's ideal behaviour (checked for that method on its own)
+        def dec2(c):
+            r = _dec(conds, c)
+            if r is None: raise NeedCond(c)
+            return r
+        try:
+            final, ret = step_on(calls[-1][3], W, Kval, calls[-1][1] == "next_back", dec2)
+        except NeedCond as e:
+            if depth >= 5:
+                return [(False, conds, show_got(), "case split differs from the ideal: %r stays undecided" % (e.c,))]
+            out = []
+            for c in (e.c, e.c.neg()):
+                if _dec(conds, c) is False:
+                    continue
+                out += judge(m, W, Kval, conds + [c], actions, ret, final, depth + 1)
+            return out
+        calls = []
+    if any(a[0] == "SUBST_L" for a in actions):
+        # the code asked for len(): m items, L = (m-1)*(W+K) + W; compare both sides after eliminating L
+        repl = (Poly.atom("m") - ONE) * (W + Kval) + W
+        sv = lambda v: subst_val(v, "L", repl)
+        conds = list(conds) + [Cond(c.op, subst_poly(c.poly, "L", repl)) for c in conds if c.poly is not None and any("L" in mono for mono in c.poly.t)]
+        ret, final, exp_ret = sv(ret), sv(final), sv(exp_ret)
+        exp_final = sv(exp_final) if exp_final is not None else None
+        if exp_call is not None: exp_call = (exp_call[0], sv(exp_call[1]))
+        calls = [(a[0], a[1], a[2], sv(a[3])) for a in calls]
     if exp_call is None:
         ok = ok and not calls
     else:
@@ -532,12 +759,30 @@ def check(facts, typ, W, selfdesc, Kval):
         m = b["name"]
         if m == "size_hint": continue
         try:
-            res = Eval(b, selfdesc).run()
+            ev_ = Eval(b, selfdesc); ev_.W = W; ev_.method = m
+            res = ev_.run()
             verdicts = []
             for conds, actions, ret, final in res:
                 try:
                     base = [c for c in BASE_FACTS if not any(k.key() == c.key() for k in conds)]
                     vs = judge(m, W, Kval, list(conds) + base, actions, ret, final)
+                    if any(okv is False for okv, _, _, _ in vs) and m in ("next", "next_back", "nth", "nth_back"):
+                        # a symbolic mismatch is only a candidate (the path may be infeasible for reasons the fact matcher does not
+                        # see): report it when a concrete reachable cursor state witnesses the difference
+                        wit = find_witness(m, W is C, [c for c in conds], actions, ret, final)
+                        if wit is None or wit == "unknown-atom":
+                            vs = [(None, cs, got, "symbolic mismatch without a concrete witness among small cursor states (%s): undecided" % exp) if okv is False else (okv, cs, got, exp) for okv, cs, got, exp in vs]
+                        else:
+                            first = True
+                            nv_ = []
+                            for okv, cs, got, exp in vs:
+                                if okv is False and first:
+                                    nv_.append((False, cs, got, exp + "; witness: " + wit)); first = False
+                                elif okv is False:
+                                    continue
+                                else:
+                                    nv_.append((okv, cs, got, exp))
+                            vs = nv_
                     # report with the path's own facts (plus the refinement), not the sign facts
                     verdicts += [(okv, [c for c in cs if not any(c.key() == k.key() for k in BASE_FACTS)], got, exp) for okv, cs, got, exp in vs]
                 except Inconclusive as e:
